@@ -10,6 +10,8 @@ use vlab::util::J;
 enum P {
     Queue(usize),
     Driver(Kind, TKind, usize),
+    /// A peer that ignores the advertised receive credit: (depth, per-connection capacity).
+    VsockOverrun(usize, u32),
 }
 
 fn parts(tier: Tier) -> Vec<(String, P)> {
@@ -37,6 +39,9 @@ fn parts(tier: Tier) -> Vec<(String, P)> {
         v.push(("driver:blk:pci:dev=1".into(), P::Driver(Kind::Blk, TKind::Pci, 1)));
         v.push(("driver:socket:mmio-legacy:dev=1".into(), P::Driver(Kind::Socket, TKind::MmioLegacy, 1)));
     }
+    for (d, cap) in if tier == Tier::Quick { vec![(5usize, 4u32), (4, 8)] } else { vec![(7, 4), (6, 8), (5, 16)] } {
+        v.push((format!("vsock-credit-overrun:depth={}:cap={}", d, cap), P::VsockOverrun(d, cap)));
+    }
     v
 }
 
@@ -44,6 +49,7 @@ fn runner(p: P) -> Box<dyn Fn() + Sync> {
     match p {
         P::Queue(_) => Box::new(c07::run_queue),
         P::Driver(k, t, _) => Box::new(move || c07::run_driver(k, t)),
+        P::VsockOverrun(d, cap) => Box::new(move || vlab::c07_vsock::run(TKind::Model, d, cap)),
     }
 }
 
@@ -160,6 +166,7 @@ fn main() {
     for (name, p) in parts(args.tier) {
         let dev = match p {
             P::Queue(d) | P::Driver(_, _, d) => d,
+            P::VsockOverrun(_, _) => 0,
         };
         vlab::crash::set_context("C07", &name);
         let mut cfg = DfsConfig::new(&name, dev);
